@@ -5,78 +5,30 @@
   against, so that a change of ORDER or of CALL KIND in the source (write before verify, `write` for `write_all`, a dropped flush,
   a guard moved behind the read it protects, File::create for an append) breaks an obligation even if no constant changes.
   A broken obligation is not by itself a violation: the check then searches for a failing input.
+
+  One module per function (KestrelProofs/Flows/<file>_<fn>.lean), so that a property's check depends only on the skeletons of the
+  functions its theorems are about: a change to `key_encrypt` does not disturb the keyring properties.
 -/
-import KestrelModel.Generated
-namespace Kestrel
-open Generated
-
-/-- encrypt.rs::key_encrypt — payload key drawn, the Noise message computed (may refuse) BEFORE anything is written; then prologue, message, flush, file key  (properties: C01 C06 C13 C05) -/
-theorem gen_flow_encrypt_rs_key_encrypt : flow_encrypt_rs_key_encrypt = ["random", "noise_write", "write_all", "write_all", "flush", "hkdf"] := rfl
-
-/-- encrypt.rs::pass_encrypt — key derived, then magic, salt, flush  (properties: C02 C06) -/
-theorem gen_flow_encrypt_rs_pass_encrypt : flow_encrypt_rs_pass_encrypt = ["scrypt", "write_all", "write_all", "flush"] := rfl
-
-/-- encrypt.rs::encrypt_chunks — one read before the loop, one look-ahead read per iteration, seal, header+body through write_all, flush, counter += 1 after the break test  (properties: C01 C06 C07 C10 C11) -/
-theorem gen_flow_encrypt_rs_encrypt_chunks : flow_encrypt_rs_encrypt_chunks = ["read", "loop", "read", "err:UnexpectedData", "be_bytes", "be_bytes", "seal", "be_bytes", "write_all", "write_all", "flush", "break", "ctr+=1"] := rfl
-
-/-- decrypt.rs::key_decrypt — magic, handshake, file key — nothing is written here  (properties: C03 C04 C13) -/
-theorem gen_flow_decrypt_rs_key_decrypt : flow_decrypt_rs_key_decrypt = ["err:Other", "read_exact", "magic_check", "err:Other", "read_exact", "noise_read", "hkdf"] := rfl
-
-/-- decrypt.rs::pass_decrypt — magic, salt, key — nothing is written here  (properties: C02 C03 C04 C13) -/
-theorem gen_flow_decrypt_rs_pass_decrypt : flow_decrypt_rs_pass_decrypt = ["err:Other", "read_exact", "magic_check", "err:Other", "read_exact", "scrypt"] := rfl
-
-/-- decrypt.rs::decrypt_chunks — header, length bound BEFORE the body read, body, open, final flag == 1, single-read probe, THEN write_all + flush, counter += 1  (properties: C03 C04 C09 C10 C11) -/
-theorem gen_flow_decrypt_rs_decrypt_chunks : flow_decrypt_rs_decrypt_chunks = ["loop", "read_exact", "len>cs", "err:ChunkLen", "read_exact", "open", "last==1", "read", "err:UnexpectedData", "write_all", "flush", "break", "ctr+=1"] := rfl
-
-/-- lib.rs::noise_decrypt — payload-length guard  (properties: C09) -/
-theorem gen_flow_lib_rs_noise_decrypt : flow_lib_rs_noise_decrypt = ["err:Other"] := rfl
-
-/-- lib.rs::chapoly_decrypt_ietf — length guard before the AEAD call (D2 repair)  (properties: C09 C19) -/
-theorem gen_flow_lib_rs_chapoly_decrypt_ietf : flow_lib_rs_chapoly_decrypt_ietf = ["len<tag", "err:ChaPolyDecryptError", "aead_open"] := rfl
-
-/-- lib.rs::chapoly_encrypt_noise — nonce = 4 zero bytes then the counter little-endian  (properties: C06 C19 C07) -/
-theorem gen_flow_lib_rs_chapoly_encrypt_noise : flow_lib_rs_chapoly_encrypt_noise = ["le_bytes", "nonce[4..]", "seal_ietf"] := rfl
-
-/-- lib.rs::chapoly_decrypt_noise — same nonce layout on the open side  (properties: C06 C19) -/
-theorem gen_flow_lib_rs_chapoly_decrypt_noise : flow_lib_rs_chapoly_decrypt_noise = ["le_bytes", "nonce[4..]", "open_ietf"] := rfl
-
-/-- noise.rs::write_message — e: mix_hash; es: dh, mix_key; s: encrypt_and_hash; ss: dh, mix_key; payload: encrypt_and_hash (arms appear in enum order in the source)  (properties: C05 C06) -/
-theorem gen_flow_noise_rs_write_message : flow_noise_rs_write_message = ["random_key", "mix_hash", "encrypt_and_hash", "dh", "mix_key", "dh", "mix_key", "encrypt_and_hash"] := rfl
-
-/-- noise.rs::read_message — length guard (D3 repair), then the token arms  (properties: C05 C06 C09) -/
-theorem gen_flow_noise_rs_read_message : flow_noise_rs_read_message = ["len<96", "err:Other", "mix_hash", "decrypt_and_hash", "dh", "mix_key", "dh", "mix_key", "decrypt_and_hash"] := rfl
-
-/-- noise.rs::init_x — prologue and the responder/recipient static key are mixed into h  (properties: C05 C06) -/
-theorem gen_flow_noise_rs_init_x : flow_noise_rs_init_x = ["mix_hash", "mix_hash", "mix_hash"] := rfl
-
-/-- commands.rs::ensure_created — the output file is created (and truncated) lazily by File::create  (properties: C13 C08) -/
-theorem gen_flow_commands_rs_ensure_created : flow_commands_rs_ensure_created = ["file_create"] := rfl
-
-/-- commands.rs::gen_key — fresh key, fresh salt, lock; -o FILE opened with create+append (D1 repair)  (properties: C14 C07 C16) -/
-theorem gen_flow_commands_rs_gen_key : flow_commands_rs_gen_key = ["err:anyhow", "ask_pass", "random_key", "random", "lock", "open_options", "open_append", "open_output", "write_all", "flush"] := rfl
-
-/-- commands.rs::change_pass — unlock with the old password, fresh salt, lock, print  (properties: C16 C07) -/
-theorem gen_flow_commands_rs_change_pass : flow_commands_rs_change_pass = ["ask_pass", "ask_pass", "unlock", "random", "lock", "println"] := rfl
-
-/-- commands.rs::pass_encrypt — input, lazy output, password, fresh salt, library call  (properties: C07 C12 C13) -/
-theorem gen_flow_commands_rs_pass_encrypt : flow_commands_rs_pass_encrypt = ["err:anyhow", "open_input", "open_output", "ask_pass", "random", "lib_pass_encrypt", "println", "err:anyhow", "println"] := rfl
-
-/-- commands.rs::pass_decrypt — input, lazy output, password, library call; an error is returned as an error  (properties: C12 C13 C04) -/
-theorem gen_flow_commands_rs_pass_decrypt : flow_commands_rs_pass_decrypt = ["err:anyhow", "open_input", "open_output", "ask_pass", "lib_pass_decrypt", "println", "err:fmt_err", "println"] := rfl
-
-/-- commands.rs::decrypt — input, lazy output, keyring, unlock loop (D5 repair), library call, sender line  (properties: C12 C13 C09) -/
-theorem gen_flow_commands_rs_decrypt : flow_commands_rs_decrypt = ["err:anyhow", "open_input", "open_output", "open_keyring", "err:anyhow", "err:anyhow", "ask_pass", "loop", "unlock", "err:anyhow", "println", "ask_pass", "lib_key_decrypt", "println", "err:fmt_err", "println", "println", "println", "println"] := rfl
-
-/-- commands.rs::encrypt — input, lazy output, keyring, unlock loop (D5 repair), library call  (properties: C12 C13 C09) -/
-theorem gen_flow_commands_rs_encrypt : flow_commands_rs_encrypt = ["err:anyhow", "open_input", "open_output", "open_keyring", "err:anyhow", "err:anyhow", "err:anyhow", "ask_pass", "loop", "unlock", "err:anyhow", "println", "ask_pass", "lib_key_encrypt", "println", "err:anyhow", "println"] := rfl
-
-/-- keyring.rs::lock_private_key — scrypt then seal  (properties: C15) -/
-theorem gen_flow_keyring_rs_lock_private_key : flow_keyring_rs_lock_private_key = ["scrypt", "seal_ietf"] := rfl
-
-/-- keyring.rs::unlock_private_key — length and version guards, scrypt, open  (properties: C15 C09) -/
-theorem gen_flow_keyring_rs_unlock_private_key : flow_keyring_rs_unlock_private_key = ["err:PrivateKeyLength", "err:PrivateKeyFormat", "scrypt", "open_ietf"] := rfl
-
-/-- keyring.rs::get_name_from_key — exact string comparison  (properties: C05 C12 C17) -/
-theorem gen_flow_keyring_rs_get_name_from_key : flow_keyring_rs_get_name_from_key = ["str_eq"] := rfl
-
-end Kestrel
+import KestrelProofs.Flows.encrypt_rs_key_encrypt
+import KestrelProofs.Flows.encrypt_rs_pass_encrypt
+import KestrelProofs.Flows.encrypt_rs_encrypt_chunks
+import KestrelProofs.Flows.decrypt_rs_key_decrypt
+import KestrelProofs.Flows.decrypt_rs_pass_decrypt
+import KestrelProofs.Flows.decrypt_rs_decrypt_chunks
+import KestrelProofs.Flows.lib_rs_noise_decrypt
+import KestrelProofs.Flows.lib_rs_chapoly_decrypt_ietf
+import KestrelProofs.Flows.lib_rs_chapoly_encrypt_noise
+import KestrelProofs.Flows.lib_rs_chapoly_decrypt_noise
+import KestrelProofs.Flows.noise_rs_write_message
+import KestrelProofs.Flows.noise_rs_read_message
+import KestrelProofs.Flows.noise_rs_init_x
+import KestrelProofs.Flows.commands_rs_ensure_created
+import KestrelProofs.Flows.commands_rs_gen_key
+import KestrelProofs.Flows.commands_rs_change_pass
+import KestrelProofs.Flows.commands_rs_pass_encrypt
+import KestrelProofs.Flows.commands_rs_pass_decrypt
+import KestrelProofs.Flows.commands_rs_decrypt
+import KestrelProofs.Flows.commands_rs_encrypt
+import KestrelProofs.Flows.keyring_rs_lock_private_key
+import KestrelProofs.Flows.keyring_rs_unlock_private_key
+import KestrelProofs.Flows.keyring_rs_get_name_from_key
